@@ -72,6 +72,11 @@ def gen_case(ctx, k, P):
     return dict(cid=cid, cls=cls, opts=opts, t=t, n=n, P=P, first_rows=first_rows, vecs=[x0, b], hist=hist, maxit=maxit,
                 kind=kind, bkind=bkind, xkind=xkind, line=line)
 
+def ffloat(v):
+    if isinstance(v, str): return float("nan") if "nan" in v else (float("-inf") if v.startswith("-") else float("inf"))
+    try: return float(v)
+    except OverflowError: return float("inf") if v > 0 else float("-inf")
+
 def fnorm(v): return math.sqrt(math.fsum(x * x for x in v))
 
 def ref_residual(rows, bf, x):
@@ -146,7 +151,7 @@ def judge(ctx, c, res, model_lines):
                 sig = sig0.replace("solve:", "solve:truth:") + (":small_rhs" if c["bkind"] == "small" else "")
                 sig = "solve:truth:small_rhs" if c["bkind"] == "small" else "solve:truth:" + c["cls"]
                 ctx.signal("O", sig, "solve returned %d < %d iterations (reported %s) but the recomputed relative residual is %.6g > tol %.3g"
-                           % (it, maxit, rep[it] if isinstance(rep[it], str) else float(rep[it]), tr, tol), case=c["line"])
+                           % (it, maxit, rep[it] if isinstance(rep[it], str) else ffloat(rep[it]), tr, tol), case=c["line"])
     else:
         ctx.count("hit_limit")
     # --- O: the reported history is the true history
@@ -154,7 +159,7 @@ def judge(ctx, c, res, model_lines):
         r = rep[kq]
         if trues[kq] is None:
             if not isinstance(r, str):
-                ctx.signal("O", sig0 + ":history:nonfinite", "iterate %d is not finite but the reported residual is %.6g" % (kq, float(r)), case=c["line"]); break
+                ctx.signal("O", sig0 + ":history:nonfinite", "iterate %d is not finite but the reported residual is %.6g" % (kq, ffloat(r)), case=c["line"]); break
             continue
         tr, sl = trues[kq]
         if not math.isfinite(tr): continue          # the exact residual overflows the double range: any non-finite report is right
@@ -162,9 +167,9 @@ def judge(ctx, c, res, model_lines):
             if math.isfinite(tr) and tr < 1e150:
                 ctx.signal("O", sig0 + ":history", "reported residual %d is %s, recomputed %.6g" % (kq, r, tr), case=c["line"]); break
             continue
-        if abs(float(r) - tr) > 1e-6 * tr + sl:
+        if abs(ffloat(r) - tr) > 1e-6 * tr + sl:
             sig = "solve:history:small_rhs" if c["bkind"] == "small" else sig0 + ":history"
-            ctx.signal("O", sig, "reported residual %d is %.9g, recomputed %.9g (|b| = %.3g)" % (kq, float(r), tr, bnorm), case=c["line"]); break
+            ctx.signal("O", sig, "reported residual %d is %.9g, recomputed %.9g (|b| = %.3g)" % (kq, ffloat(r), tr, bnorm), case=c["line"]); break
     if nontrivial: ctx.nontrivial.add(c["line"].split(" ", 1)[1][:2000])
     # --- K: the model of the wrapper on the library's iterates
     if ctx.k_budget > 0 and n * (it + 1) <= 2500:
@@ -195,10 +200,10 @@ def compare_model(ctx, e, mres):
     for kq in range(min(len(mres2), len(e["rep"]))):
         m2, r = mres2[kq], e["rep"][kq]
         if isinstance(m2, str) or isinstance(r, str):
-            if isinstance(m2, str) != isinstance(r, str) and not (isinstance(r, str) or float(m2) > 1e300):
+            if isinstance(m2, str) != isinstance(r, str) and not (isinstance(r, str) or ffloat(m2) > 1e300):
                 ctx.signal("K", sig0 + ":history", "entry %d: model %s, implementation %s" % (kq, m2, r), case=line); return
             continue
-        mv = math.sqrt(float(m2)); rv = float(r)
+        mv = math.sqrt(ffloat(m2)); rv = ffloat(r)
         sl = e["trues"][kq][1] if e["trues"][kq] is not None else 0.0
         if abs(mv - rv) > 1e-6 * max(mv, rv) + sl:
             ctx.signal("K", sig0 + ":history", "entry %d of the residual history: model %.9g, implementation %.9g" % (kq, mv, rv), case=line,
@@ -213,7 +218,7 @@ def run(ctx):
                 "are coarse already; random / consistent / small-magnitude (2^-30..2^-60) / zero right-hand sides, zero / random initial guesses; P in {1,2,3,4}; "
                 "non-trivial = at least one iteration performed")
     per_P = {1: ctx.scale(300, 3600), 2: ctx.scale(180, 2200), 3: ctx.scale(180, 2200), 4: ctx.scale(140, 1700)}
-    ctx.k_budget = ctx.scale(130, 1500)
+    k_total = ctx.scale(132, 1500)
     if ctx.replay: cases = [replay_case(l) for l in ctx.replay]
     else:
         cases = []; k = 0
@@ -226,6 +231,7 @@ def run(ctx):
         sub = [c for c in cases if c["P"] == P]
         if not sub: continue
         t0 = time.time()
+        ctx.k_budget = k_total // 4
         impl, crashed = fw.run_impl_lines(ctx, "drv_cycle", [c["line"] for c in sub], nprocs=P, name="c01_p%d" % P, timeout=1500, max_restarts=40)
         t1 = time.time()
         for c in sub: judge(ctx, c, impl.get(c["cid"]), model_lines)
